@@ -14,7 +14,7 @@ use crate::wr::{calls_json, run_calls, WCall, WRes};
 pub static DEF: PropDef = PropDef {
     id: "C02",
     level: "exploration",
-    rule: "each case: a byte stream from one of three producers — (a) the real writer on a random conformant tree with mixed options, (b) the reference encoder with hostile-but-valid choices (size widths 1-8, unknown-size masters of every all-ones width closed by sibling/ancestor/root/exhausted parent/EOF, zero-padded and 0-length integers, 4-byte floats), (c) 1-3 random mutations (bit flips, inserts, deletes, size-field rewrites, id swaps, subtree copies) of (a)/(b). If the real strict iterator reads it cleanly from a root element (pass 1), every item is written back through the real writer (all calls must succeed) and the output is read again (pass 2); pass-2 values must equal pass-1 values. For unmutated reference encodings pass 1 must also equal the semantic tree. distinct = hash of the input bytes; non-trivial iff the rewritten bytes differ from the input (something non-canonical was normalised) or an unknown-size master was present.",
+    rule: "each case: a byte stream from one of three producers — (a) the real writer on a random conformant tree with mixed options, (b) the reference encoder with hostile-but-valid choices (size widths 1-8, unknown-size masters of every all-ones width closed by sibling/ancestor/root/exhausted parent/EOF, zero-padded and 0-length integers, 4-byte floats), (c) 1-3 random mutations (bit flips, inserts, deletes, size-field rewrites, id swaps, subtree copies) of (a)/(b). If the real strict iterator (a quarter of the cases: with a random subset of the masters buffered, so that Full items are emitted and written back) reads it cleanly from a root element (pass 1), every item is written back through the real writer (all calls must succeed) and the output is read again (pass 2); pass-2 values must equal pass-1 values. For unmutated reference encodings pass 1 must also equal the semantic tree. distinct = hash of the input bytes; non-trivial iff the rewritten bytes differ from the input (something non-canonical was normalised) or an unknown-size master was present.",
     assumptions: &["streams that pass 1 rejects or that do not begin at a root element are vacuous (counted)", "the size limit is set to 16 MiB for pass 1 so that mutated size fields cannot request huge allocations"],
     cases_quick: 300_000,
     cases_thorough: 3_000_000,
@@ -24,6 +24,10 @@ pub static DEF: PropDef = PropDef {
 };
 
 fn run(c: &mut Case) {
+    if c.tier == crate::runner::Tier::Thorough && c.idx < super::giant::GIANT_CASES {
+        super::giant::run_giant(c, "C02", c.idx);
+        return;
+    }
     let kind = c.rng.below(10);
     let mut o = DocOpts::MIXED;
     o.raw = false;
@@ -59,7 +63,10 @@ fn run(c: &mut Case) {
         bytes = b;
         mkinds = k;
     }
-    let cfg = RCfg { allow: 0, buffered: vec![], capacity: None, max_size: MaxSz::Set(Some(1 << 24)), eof_end: true };
+    // a quarter of the streams are read with some masters buffered: the emitted tags then contain Full items, which
+    // are written back as such (and read back the same way)
+    let buffered: Vec<u64> = if c.rng.chance(1, 4) { doc.spec.masters().into_iter().filter(|_| c.rng.chance(1, 2)).collect() } else { vec![] };
+    let cfg = RCfg { allow: 0, buffered, capacity: None, max_size: MaxSz::Set(Some(1 << 24)), eof_end: true };
     let p1 = parse_slice(&bytes, &cfg);
     c.eval();
     if let Ev::Caught(cg) = &p1.end {
@@ -88,11 +95,12 @@ fn run(c: &mut Case) {
     // meaning check for unmutated reference encodings
     if !mutated {
         let expected = flat(&doc.tree);
-        if let Some(k) = first_diff(&expected, &v1) {
+        let v1f = crate::spec::flatten(&v1);
+        if let Some(k) = first_diff(&expected, &v1f) {
             let classes = flat_classes(&doc.tree);
             c.violation(
                 format!("C02/pass1-meaning/{}/{}", producer, classes.get(k).cloned().unwrap_or("end".into())),
-                format!("pass 1 item {} is {} but the encoded tree says {}", k, v1.get(k).map(|i| i.short()).unwrap_or("<none>".into()), expected.get(k).map(|i| i.short()).unwrap_or("<end>".into())),
+                format!("pass 1 item {} is {} but the encoded tree says {}", k, v1f.get(k).map(|i| i.short()).unwrap_or("<none>".into()), expected.get(k).map(|i| i.short()).unwrap_or("<end>".into())),
                 wit(J::obj().set("expected", items_json(&expected, 60))),
             );
             return;
@@ -144,6 +152,9 @@ fn run(c: &mut Case) {
     }
     if has_unknown {
         c.count("streams_with_unknown_size_masters");
+    }
+    if v1.iter().any(|i| matches!(i, crate::spec::Item::Full(..))) {
+        c.count("streams_with_full_items");
     }
     c.count(&format!("producer_{}", sigctx));
     if c.idx % 1499 == 3 {
